@@ -378,6 +378,10 @@ structure SSt (σb α : Type) where
   `list(islice(...))` is being built — still the block processed last (Python rebinds the name only
   when the new list is complete) -/
   cur : List α
+  /-- the list the variable `buf` of the loop over the active sequences is bound to: the block last handed to a
+  branch (`buf = orig_buf` for the last active sequence); it stays bound while later blocks are read, also
+  when no sequence is active any more -/
+  last : List α := []
   /-- the list under construction inside `list(itertools.islice(flow, bufsize))` -/
   buf : List α
   pending : List α
@@ -392,7 +396,8 @@ def processBlock {σb : Type} (copyBuf : Bool) (s : σ) (l : SSt σb α) : Step 
     .cont (s, { l with cur := l.buf, pending := Lena.C03.outputs (Lena.C03.finalPass l.fwe l.act), phase := .finalEmit })
   else
     let r := Lena.C03.blockLoop copyBuf l.buf (l.act.length + 1) 0 l.act []
-    .cont (s, { act := r.2, cur := l.buf, buf := [], pending := Lena.C03.outputs r.1, phase := .emitting, fwe := false })
+    .cont (s, { act := r.2, cur := l.buf, last := if l.act.isEmpty then l.last else l.buf, buf := [],
+                pending := Lena.C03.outputs r.1, phase := .emitting, fwe := false })
 
 /-- `islice(flow, bufsize)` has delivered `bufsize` values: it does not pull again -/
 def blockFull (bufsize : Option Nat) (buf : List α) : Bool :=
@@ -713,12 +718,12 @@ def seqFuelOKb : List (Stage α) → SF α → Nat → Bool
 
 /-- the number of input values an element documents to keep (what the liveness oracle of the harness
 allows per element, apart from frame locals): `|index|` for a negative `Slice`, one value of look-ahead
-for `Count`, for `Split` the block bound to `orig_buf` plus the block being read; `none`: the element
+for `Count`, for `Split` the blocks bound to `orig_buf` and to `buf` plus the block being read; `none`: the element
 documents that it materialises the flow (`bufsize=None`) -/
 def Stage.cap : Stage α → Option Nat
   | .negslice a b _ => some (max (negLen a) (negLen b))
   | .count _ => some 1
-  | .split _ brs bufsize _ => if brs.isEmpty then some 0 else bufsize.map (fun b => 2 * b)
+  | .split _ brs bufsize _ => if brs.isEmpty then some 0 else bufsize.map (fun b => 3 * b)
   | _ => some 0
 
 def seqCap : List (Stage α) → Option Nat
@@ -870,6 +875,8 @@ structure BrSt where
   /-- the counters of the `Count` elements inside `RunIf` elements of a sequence-type branch (one
   element object serves every block) -/
   cnts : List Int := []
+  /-- the accumulator of the fill/request element of a fill/request branch (`BlockSum` of the harness) -/
+  acc : Int := 0
   deriving Repr
 
 /-- `FillComputeSeq.fill` / `compute` with `Count(name)` as the fill/compute element and `post` as
@@ -896,6 +903,23 @@ def seqOps (run : List Int → List V → List V × List Int) : Lena.C03.Ops BrS
   request := fun s => ([], s)
   run := fun s buf => let r := run s.cnts buf; (r.1, { s with cnts := r.2 })
 
+/-- a fill/request branch `FillRequestSeq(*pre, BlockSum(stop), *post)` of the harness: `fill` goes through
+the `_Fill` chain of `pre`; the element adds the datum to its accumulator and raises `LenaStopFill`
+instead once `stop` values were filled; `request()` yields the accumulator (as a bare value) through
+`post` and clears it.  `Split.run` calls `request()` after every block (core/split.py:393-408). -/
+def frOps (stop : Option Nat) (post : List V → List V) : Lena.C03.Ops BrSt V where
+  call := fun s => ([], s)
+  fill := fun s v =>
+    match fillChain s.pre v with
+    | (pre', .reached v') =>
+      if (match stop with | some m => decide (s.count ≥ (m : Int)) | none => false) then ({ s with pre := pre' }, true)
+      else ({ s with pre := pre', count := s.count + 1, acc := s.acc + v'.d }, false)
+    | (pre', .dropped) => ({ s with pre := pre' }, false)
+    | (pre', .stopped) => ({ s with pre := pre' }, true)
+  compute := fun s => ([], s)
+  request := fun s => (post [{ d := s.acc, ctx := [] }], { s with acc := 0 })
+  run := fun s _ => ([], s)
+
 /-- a `Source` given to `Split`: `seq()` drained -/
 def srcOps (vals : List V) : Lena.C03.Ops BrSt V where
   call := fun s => (vals, s)
@@ -903,5 +927,82 @@ def srcOps (vals : List V) : Lena.C03.Ops BrSt V where
   compute := fun s => ([], s)
   request := fun s => ([], s)
   run := fun s _ => ([], s)
+
+/-! ### inner sequences (of a `RunIf`, of a branch of a `Split`) by their list semantics
+
+`seq.run(vals)` of an inner sequence is evaluated at once (its laziness does not touch the source);
+the only state its elements keep from one run to the next are the counters of `Count` elements
+(`Count.run`: `self.count += count`), threaded here as a list in depth-first order. -/
+
+/-- an element of an inner sequence -/
+inductive IEl where
+  | map (f : Fn)
+  | filter (p : Pred)
+  | slice (k : Lena.C17.SliceKind)
+  | count (name : String)
+  | runif (p : Pred) (inner : List IEl)
+  /-- a stateless element given by its list semantics (a nested `Split` of stateless branches; a
+  `Cache` without a cache file: the identity) -/
+  | opaque (den : List V → List V)
+
+mutual
+/-- the number of `Count` elements, depth first -/
+def IEl.counts : IEl → Nat
+  | .count _ => 1
+  | .runif _ inner => iCounts inner
+  | _ => 0
+def iCounts : List IEl → Nat
+  | [] => 0
+  | e :: r => e.counts + iCounts r
+end
+
+mutual
+/-- nesting depth of `RunIf`s -/
+def IEl.depth : IEl → Nat
+  | .runif _ inner => iDepth inner + 1
+  | _ => 0
+def iDepth : List IEl → Nat
+  | [] => 0
+  | e :: r => max e.depth (iDepth r)
+end
+
+/-- one element of an inner sequence on the flow `vals`; `rec` runs the inner sequence of a `RunIf` -/
+def iRunEl (rec : List IEl → List Int → List V → List V × List Int) : IEl → List Int → List V → List V × List Int
+  | .map f, st, vals => (vals.map f.app, st)
+  | .filter p, st, vals => (vals.filter p.eval, st)
+  | .slice k, st, vals =>
+    (match Lena.C17.sliceRun k vals with
+     | some (.ok ys) => ys
+     | _ => [], st)
+  | .count name, st, vals =>
+    -- `Count.run`: `self.count += count` (nothing happens on an empty flow)
+    let c := st.headD 0
+    (countDen (markCount name c) vals, [c + vals.length])
+  | .opaque den, st, vals => (den vals, st)
+  | .runif p inner, st, vals =>
+    vals.foldl (fun acc v =>
+      if p.eval v then
+        let r := rec inner acc.2 [v]
+        (acc.1 ++ r.1, r.2)
+      else (acc.1 ++ [v], acc.2)) ([], st)
+
+/-- the elements in order, each with its share of the counters -/
+def iRunList (rec : List IEl → List Int → List V → List V × List Int) :
+    List IEl → List Int → List V → List V × List Int
+  | [], st, vals => (vals, st)
+  | el :: rest, st, vals =>
+    let n := el.counts
+    let r := iRunEl rec el (st.take n) vals
+    let q := iRunList rec rest (st.drop n) r.1
+    (q.1, r.2 ++ q.2)
+
+/-- `seq.run(vals)` drained, for sequences whose `RunIf`s are nested at most `fuel` deep -/
+def iRunF : Nat → List IEl → List Int → List V → List V × List Int
+  | 0, els, st, vals => iRunList (fun _ st' vals' => (vals', st')) els st vals
+  | fuel + 1, els, st, vals => iRunList (iRunF fuel) els st vals
+
+/-- `seq.run(vals)` drained, with the counters of its `Count` elements (depth first) before and after -/
+def iRun (els : List IEl) (st : List Int) (vals : List V) : List V × List Int :=
+  iRunF (iDepth els) els st vals
 
 end Lena.C02
